@@ -20,6 +20,7 @@
 #include "stir/SegmentBySinogram.h"
 #include "stir/Succeeded.h"
 #include <cstdio>
+#include <algorithm>
 #include <cstring>
 #include <map>
 #include <sstream>
@@ -324,9 +325,72 @@ static int asym()
   return 0;
 }
 
+// TOF data in a stream whose TOF blocks are in a given order (element i of the order = TOF bin of block i): every bin read through
+// get_bin_value / get_viewgram / get_sinogram is the raw element at block(tof) * block_size + offset inside the block, and a value written
+// through set_bin_value lands there
+static int tofstream()
+{
+  shared_ptr<ExamInfo> exam(new ExamInfo);
+  exam->imaging_modality = ImagingModality::PT;
+  shared_ptr<Scanner> scanner(new Scanner(Scanner::Discovery690));
+  shared_ptr<ProjDataInfo> info(ProjDataInfo::construct_proj_data_info(scanner, 2, 2, 8, 6, false, 11));
+  if (info->get_num_tof_poss() != 5) { std::printf("unexpected number of TOF bins %d\n", info->get_num_tof_poss()); return 3; }
+  const ProjDataInfo& pi = *info;
+  const std::vector<std::vector<int>> orders = { { -2, -1, 0, 1, 2 }, { 0, 1, -1, 2, -2 }, { 1, 2, -2, 0, -1 }, { 2, 1, 0, -1, -2 } };
+  const std::vector<int> segseq = { 0, 1, -1 }; // default order of the segments in the stream for this constructor
+  for (int order = 0; order < 2; ++order)
+    for (auto& tof_order : orders)
+      {
+        long block = 0;
+        for (int sg = pi.get_min_segment_num(); sg <= pi.get_max_segment_num(); ++sg)
+          block += long(pi.get_num_axial_poss(sg)) * pi.get_num_views() * pi.get_num_tangential_poss();
+        std::vector<float> raw(block * 5);
+        for (std::size_t k = 0; k < raw.size(); ++k) raw[k] = float(k);
+        shared_ptr<std::stringstream> stream(new std::stringstream(std::string(reinterpret_cast<const char*>(raw.data()), raw.size() * sizeof(float)),
+                                                                   std::ios::in | std::ios::out | std::ios::binary));
+        ProjDataFromStream pd(exam, info, stream, 0, order == 0 ? ProjDataFromStream::Segment_View_AxialPos_TangPos : ProjDataFromStream::Segment_AxialPos_View_TangPos);
+        pd.set_timing_poss_sequence_in_stream(tof_order);
+        const std::vector<int> seq = pd.get_segment_sequence_in_stream();
+        auto index = [&](int sg, int ax, int vw, int tg, int tof) {
+          long k = (std::find(tof_order.begin(), tof_order.end(), tof) - tof_order.begin()) * block;
+          for (int q : seq) { if (q == sg) break; k += long(pi.get_num_axial_poss(q)) * pi.get_num_views() * pi.get_num_tangential_poss(); }
+          const long a = ax - pi.get_min_axial_pos_num(sg), v = vw - pi.get_min_view_num(), t = tg - pi.get_min_tangential_pos_num();
+          return order == 0 ? k + (v * pi.get_num_axial_poss(sg) + a) * pi.get_num_tangential_poss() + t : k + (a * pi.get_num_views() + v) * pi.get_num_tangential_poss() + t;
+        };
+        for (int tof = pi.get_min_tof_pos_num(); tof <= pi.get_max_tof_pos_num(); ++tof)
+          for (int sg = pi.get_min_segment_num(); sg <= pi.get_max_segment_num(); ++sg)
+            for (int vw = pi.get_min_view_num(); vw <= pi.get_max_view_num(); ++vw)
+              {
+                const Viewgram<float> vg = pd.get_viewgram(vw, sg, false, tof);
+                for (int ax = pi.get_min_axial_pos_num(sg); ax <= pi.get_max_axial_pos_num(sg); ++ax)
+                  for (int tg = pi.get_min_tangential_pos_num(); tg <= pi.get_max_tangential_pos_num(); ++tg)
+                    {
+                      const float want = raw[index(sg, ax, vw, tg, tof)], got = vg[ax][tg], got2 = pd.get_bin_value(Bin(sg, vw, ax, tg, tof));
+                      if (got != want || got2 != want)
+                        {
+                          std::printf("CONFIRMED ProjDataFromStream (%s order, TOF bin order {%d,%d,%d,%d,%d}): bin (seg %d, ax %d, view %d, tang %d, TOF %d) is raw element %ld = %g; get_viewgram gives %g, get_bin_value %g\n",
+                                      order == 0 ? "view" : "sinogram", tof_order[0], tof_order[1], tof_order[2], tof_order[3], tof_order[4], sg, ax, vw, tg, tof, index(sg, ax, vw, tg, tof), want, got, got2);
+                          return 1;
+                        }
+                    }
+              }
+        // a write lands in the element of its own bin
+        const Bin b(pi.get_max_segment_num(), 3, 0, -1, pi.get_max_tof_pos_num(), -5.F);
+        pd.set_bin_value(b);
+        const std::string bytes = stream->str();
+        float back;
+        std::memcpy(&back, bytes.data() + index(b.segment_num(), b.axial_pos_num(), b.view_num(), b.tangential_pos_num(), b.timing_pos_num()) * sizeof(float), sizeof(float));
+        if (back != -5.F)
+          { std::printf("CONFIRMED ProjDataFromStream::set_bin_value with TOF bin order {%d,%d,%d,%d,%d}: the value is not at the element of its bin in the stream\n", tof_order[0], tof_order[1], tof_order[2], tof_order[3], tof_order[4]); return 1; }
+      }
+  std::printf("REPLAY ok\n");
+  return 0;
+}
+
 int main(int argc, char** argv)
 {
   if (argc < 2) return 2;
+  if (!strcmp(argv[1], "tofstream")) return tofstream();
   if (!strcmp(argv[1], "header"))
     {
       try { const int rc = header(argc > 2 ? argv[2] : "."); if (!rc) std::printf("REPLAY ok\n"); return rc; }
